@@ -120,6 +120,11 @@ class _ABNF:
     )
 
 
+# HTTP field names are case-insensitive in ASCII only.
+_ASCII_UPPER = {c: c - 32 for c in range(ord("a"), ord("z") + 1)}
+_ASCII_LOWER = {c: c + 32 for c in range(ord("A"), ord("Z") + 1)}
+
+
 @lru_cache(1000)
 def _normalize_header(name: str) -> str:
     """Map a header name to Http-Header-Case.
@@ -127,7 +132,16 @@ def _normalize_header(name: str) -> str:
     >>> _normalize_header("coNtent-TYPE")
     'Content-Type'
     """
-    return "-".join([w.capitalize() for w in name.split("-")])
+    # Map the case of ASCII letters only. str.capitalize() follows the Unicode case
+    # mappings, which turn some non-ASCII characters into ASCII letters (U+017F
+    # "long s" becomes "S"), so a name that is not a valid field name would come
+    # out as a different, valid one. Non-ASCII characters pass through unchanged.
+    return "-".join(
+        [
+            w[:1].translate(_ASCII_UPPER) + w[1:].translate(_ASCII_LOWER)
+            for w in name.split("-")
+        ]
+    )
 
 
 class HTTPHeaders(collections.abc.MutableMapping[str, str]):
